@@ -17,6 +17,7 @@ structure FBlock where
   next : List Nat
   prev : List Nat
   sub : String
+  exitNexts : Nat := 0
 deriving Repr, Inhabited, DecidableEq
 
 structure FSub where
@@ -34,6 +35,7 @@ structure Function where
   main : FSub
   subs : List FSub
   intcs : Option (List Nat)
+  tealSubs : List (String × Nat) := []   -- every subroutine of the contract: name, key of its entry block
 deriving Repr, Inhabited
 
 def Function.block? (f : Function) (k : Nat) : Option FBlock := f.blocks.find? (·.key == k)
@@ -83,6 +85,9 @@ def Function.prevGlobal (f : Function) (b : FBlock) : Except Err (List Nat) :=
   let entrySub : Option FSub := match f.sub? b.sub with
     | some s => if s.entry == b.key then some s else none
     | none => none
+  -- entry block of a subroutine the function does not use: `function.caller_blocks(sub)` raises KeyError
+  let foreignEntry : Bool := (f.sub? b.sub).isNone && f.tealSubs.any fun (n, e) => n == b.sub && e == b.key
+  if foreignEntry then .error "KeyError" else
   match entrySub with
   | some s => if s.name != f.main.name then .ok s.callers else .ok []
   | none =>
@@ -107,7 +112,8 @@ def copyMainCfg (t : Teal) : Except Err (List FBlock) := do
   let idxOf (c : Nat) : Nat := origIdx[c]?.getD 0
   pure ((bs.zipIdx).map fun (b, c) =>
     { key := idxOf c, idx := idxOf c, ins := b.ins.filterMap (ins[·]?),
-      next := b.next.map idxOf, prev := b.prev.map idxOf, sub := mainName })
+      next := b.next.map idxOf, prev := b.prev.map idxOf, sub := mainName,
+      exitNexts := match b.ins.getLast? with | some ex => (nexts[ex]!).length | none => 0 })
 
 def identifyF (bs : List FBlock) (entry : Nat) : List Nat :=
   let nextOf (k : Nat) : List Nat := match bs.find? (·.key == k) with | some b => b.next | none => []
@@ -168,7 +174,7 @@ def constructFunction (t : Teal) (path : List Nat) : Except Err Function := do
   let subBlock (s : Sub) (i : Nat) : FBlock :=
     let b := t.allBlocks[i]!
     { key := i + subOff, idx := i, ins := b.ins, next := b.next.map (· + subOff),
-      prev := b.prev.map (· + subOff), sub := b.sub.getD s.name }
+      prev := b.prev.map (· + subOff), sub := b.sub.getD s.name, exitNexts := b.exitNexts }
   let calledBy (keys : List Nat) (bs : List FBlock) : List String :=
     (keys.filterMap fun k => (bs.find? (·.key == k)).bind (·.calledSub)).eraseDups
   -- used-subroutine closure (worklist)
@@ -203,6 +209,7 @@ def constructFunction (t : Teal) (path : List Nat) : Except Err Function := do
       callers, retPoints := retPts callers : FSub }
   let fmain : FSub := { name := fmainName, entry, blocks := mainKeys,
                         retsubs := (mainBlocksF.filter (·.isRetsub)).map (·.key), callers := [], retPoints := [] }
-  pure { blocks := allBlocks, entry, main := fmain, subs := fsubs, intcs := t.intcs }
+  pure { blocks := allBlocks, entry, main := fmain, subs := fsubs, intcs := t.intcs,
+         tealSubs := t.subs.map fun s => (s.name, s.entry + subOff) }
 
 end Tealer
